@@ -64,27 +64,28 @@ type Worker struct {
 	lenient     bool
 
 	// per path
-	steps     int
-	depth     int
-	mapOrder  int
-	goSpawns  int
-	prefix    []uint64
-	pos       int
-	trace     []uint64
-	inputs    []inputRec
-	inputSeen map[string]*Term
-	hashApps  []hashApp
-	covers    []string
-	observed  []string
-	pcTerms   []*Term
-	known     map[*Term]bool
-	fresh     int
-	curHarn   *harnessRun
-	curFrame  *frame
-	failStack string
-	sigs      []sigRec
-	cborBlobs map[string]*cborRec
-	range256  int
+	steps          int
+	depth          int
+	mapOrder       int
+	goSpawns       int
+	prefix         []uint64
+	pos            int
+	trace          []uint64
+	inputs         []inputRec
+	inputSeen      map[string]*Term
+	hashApps       []hashApp
+	covers         []string
+	observed       []string
+	pcTerms        []*Term
+	known          map[*Term]bool
+	fresh          int
+	curHarn        *harnessRun
+	curFrame       *frame
+	failStack      string
+	lastPanicStack string
+	sigs           []sigRec
+	cborBlobs      map[string]*cborRec
+	range256       int
 
 	intrinsicHits map[string]int
 	funcsSeen     map[*ssa.Function]int
@@ -108,32 +109,33 @@ type harnessRun struct {
 }
 
 type HarnessResult struct {
-	Harness       string            `json:"harness"`
-	Cfg           map[string]int64  `json:"cfg,omitempty"`
-	Paths         int               `json:"paths_completed"`
-	PathsAssumed  int               `json:"paths_cut_by_assume"`
-	PathsPanicked int               `json:"paths_ending_in_expected_panic"`
-	Decisions     int               `json:"decisions_forked"`
-	Asserts       int               `json:"assert_queries"`
-	AssertsConc   int               `json:"asserts_concrete"`
-	Sat           int               `json:"solver_sat"`
-	Unsat         int               `json:"solver_unsat"`
-	Unknown       int               `json:"solver_unknown"`
-	SolverSec     float64           `json:"solver_seconds"`
-	WallSec       float64           `json:"wall_seconds"`
-	Steps         int64             `json:"ssa_instructions_executed"`
-	Covers        map[string]int    `json:"covers"`
-	Violations    []*Counterexample `json:"violations"`
-	Inconclusive  []string          `json:"inconclusive"`
-	Samples       []*PathSample     `json:"samples"`
-	Intrinsics    map[string]int    `json:"intrinsics_hit"`
-	Funcs         map[string]int    `json:"functions_executed"`
-	SolverErrors  []string          `json:"solver_errors,omitempty"`
-	GoSpawns      int               `json:"goroutines_run_sequentially"`
-	MaxDecisions  int               `json:"max_decisions_on_a_path"`
-	FeasUnknown   int               `json:"feasibility_queries_unknown_treated_as_feasible"`
-	AssertUnknown int               `json:"assertion_queries_unknown"`
-	Portfolio     int               `json:"assertions_discharged_by_portfolio_fallback"`
+	Harness           string            `json:"harness"`
+	Cfg               map[string]int64  `json:"cfg,omitempty"`
+	Paths             int               `json:"paths_completed"`
+	PathsAssumed      int               `json:"paths_cut_by_assume"`
+	PathsPanicked     int               `json:"paths_ending_in_expected_panic"`
+	Decisions         int               `json:"decisions_forked"`
+	Asserts           int               `json:"assert_queries"`
+	AssertsConc       int               `json:"asserts_concrete"`
+	Sat               int               `json:"solver_sat"`
+	Unsat             int               `json:"solver_unsat"`
+	Unknown           int               `json:"solver_unknown"`
+	SolverSec         float64           `json:"solver_seconds"`
+	WallSec           float64           `json:"wall_seconds"`
+	Steps             int64             `json:"ssa_instructions_executed"`
+	Covers            map[string]int    `json:"covers"`
+	Violations        []*Counterexample `json:"violations"`
+	Inconclusive      []string          `json:"inconclusive"`
+	Samples           []*PathSample     `json:"samples"`
+	Intrinsics        map[string]int    `json:"intrinsics_hit"`
+	Funcs             map[string]int    `json:"functions_executed"`
+	SolverErrors      []string          `json:"solver_errors,omitempty"`
+	GoSpawns          int               `json:"goroutines_run_sequentially"`
+	MaxDecisions      int               `json:"max_decisions_on_a_path"`
+	FeasUnknown       int               `json:"feasibility_queries_unknown_treated_as_feasible"`
+	AssertUnknown     int               `json:"assertion_queries_unknown"`
+	Portfolio         int               `json:"assertions_discharged_by_portfolio_fallback"`
+	InfeasibleDropped int               `json:"failures_on_paths_proved_infeasible"`
 }
 
 func (hr *harnessRun) feasUnknown(n int) {
@@ -459,6 +461,7 @@ func (w *Worker) runPath(hr *harnessRun, prefix []uint64) {
 			case targetPanic:
 				outcome = "panic"
 				detail = toString(r.v) + " at " + r.where
+				w.lastPanicStack = w.failStack
 			case enginePanic:
 				outcome = "engine-error"
 				detail = fmt.Sprintf("%v at %s%s\n%s", r.val, r.where, w.failStack, firstLines(r.stack, 16))
@@ -507,7 +510,7 @@ func (w *Worker) runPath(hr *harnessRun, prefix []uint64) {
 	case "violation-end":
 		// violation already recorded
 	case "panic":
-		w.recordViolation("panic", detail, detail)
+		w.recordViolation("panic", detail, detail+w.lastPanicStack)
 	case "step-limit", "call-depth-limit":
 		hr.noteInconclusive("bound exceeded: " + outcome)
 	case "unsupported":
@@ -538,7 +541,14 @@ func (w *Worker) runPath(hr *harnessRun, prefix []uint64) {
 func (w *Worker) recordViolation(kind, label, where string) {
 	hr := w.curHarn
 	ce := &Counterexample{Harness: hr.name, Kind: kind, Label: label, Where: where, Covers: w.covers, Prefix: append([]uint64{}, w.trace...)}
-	if w.sol.Check() == Sat {
+	r := w.sol.Check()
+	if r == Unsat {
+		hr.mu.Lock()
+		hr.res.InfeasibleDropped++
+		hr.mu.Unlock()
+		return
+	}
+	if r == Sat {
 		wit, err := w.witness()
 		if err != nil {
 			hr.noteInconclusive("violation without model: " + err.Error())
@@ -546,7 +556,15 @@ func (w *Worker) recordViolation(kind, label, where string) {
 		}
 		ce.Witness = wit
 	} else {
-		hr.noteInconclusive("violation candidate but path condition not sat (" + kind + ": " + label + ")")
+		// a concrete failure on a path whose condition is not known satisfiable: the path may be
+		// infeasible (feasibility queries that return unknown are explored as if feasible)
+		if w.portfolio(w.tc.True) == Unsat {
+			hr.mu.Lock()
+			hr.res.InfeasibleDropped++
+			hr.mu.Unlock()
+			return
+		}
+		hr.noteInconclusive("violation candidate but path condition not shown satisfiable (" + kind + ": " + label + ")")
 		return
 	}
 	hr.mu.Lock()
@@ -896,7 +914,23 @@ func (eng *Engine) Explore(name string, cfg map[string]int64, nworkers, maxPaths
 			hr.mu.Unlock()
 		}(i)
 	}
+	stopProgress := make(chan struct{})
+	go func() {
+		tk := time.NewTicker(30 * time.Second)
+		defer tk.Stop()
+		for {
+			select {
+			case <-stopProgress:
+				return
+			case <-tk.C:
+				hr.mu.Lock()
+				fmt.Fprintf(os.Stderr, "  ... %s %v: %d paths done, %d queued, %d forks, %.0fs\n", name, cfg, hr.res.Paths, len(hr.queue), hr.res.Decisions, time.Since(start).Seconds())
+				hr.mu.Unlock()
+			}
+		}
+	}()
 	wg.Wait()
+	close(stopProgress)
 	hr.res.WallSec = time.Since(start).Seconds()
 	if len(hr.res.SolverErrors) > 0 {
 		hr.res.Inconclusive = append(hr.res.Inconclusive, "solver reported (error ...) lines")
